@@ -259,3 +259,32 @@ def tstr_lint(repo: Repo, rep: Report, rule: str, classes: List[ClassInfo]) -> i
                 else:
                     rep.ok(rule, fi, c, f"property of type {ann or '?'} compared with a string", node=c, nontrivial=False)
     return n
+
+
+def closed_definitions(rep: Report, rule: str, fi: FuncInfo, allowed: Dict[str, List[str]], what: str) -> int:
+    """Every statement that (re)defines one of the named variables - assignment, augmented assignment, subscript
+    store, in-place method - must be one of the listed statements.  An unlisted definition makes the recognised
+    algorithm shape incomplete: UNDECIDED (exit 2), never a silent pass."""
+    unknown = []
+    for st in ast.walk(fi.node):
+        tg = []
+        if isinstance(st, ast.Assign):
+            tg = st.targets
+        elif isinstance(st, (ast.AugAssign, ast.AnnAssign)):
+            tg = [st.target]
+        elif isinstance(st, ast.Expr) and isinstance(st.value, ast.Call) and isinstance(st.value.func, ast.Attribute) and (st.value.func.attr.endswith("_") or st.value.func.attr in ("append", "extend", "insert", "pop", "remove", "clear", "update")):
+            tg = [st.value.func.value]
+        for t in tg:
+            for e in (t.elts if isinstance(t, (ast.Tuple, ast.List)) else [t]):
+                root = e
+                while isinstance(root, (ast.Subscript, ast.Attribute)) and not (isinstance(root, ast.Attribute) and isinstance(root.value, ast.Name) and root.value.id == "self"):
+                    root = root.value
+                name = root.id if isinstance(root, ast.Name) else (attr_chain(root) if isinstance(root, ast.Attribute) else None)
+                if name in allowed and unparse(st) not in allowed[name]:
+                    unknown.append((name, st))
+    if unknown:
+        for name, st in unknown[:4]:
+            rep.undecided(rule, fi, st, f"unlisted definition of `{name}` in {what}: the recognised algorithm shape does not cover it", node=st)
+    else:
+        rep.ok(rule, fi, f"{what}: definitions of {sorted(allowed)} are exactly the listed ones", "no additional rewrite of the algorithm's state", nontrivial=False)
+    return 1
